@@ -22,11 +22,21 @@ EXPECTED_CLS = {"lookup_many": "track", "get_images": "image", "search": "search
 CLASSES = ["track", "image", "ref", "search", "playlist", "str", "int"]
 
 
+def spellings(s, n):
+    """Normalisation-sensitive spellings of a routable URI: the core must treat each as the
+    distinct string it is (keys of lookup/get_images are exactly the requested strings)."""
+    return [f"{s}:{n} ", f" {s}:{n}", f"\t{s}:{n}", f"{s}:{n}\n", f"{s}:{n}\u00a0", f"{s}:{n}\t", f"{s}: {n}",
+            f"{s}:{n} x", f"{s}:%3{n}", f"{s}:%41", f"{s}:a", f"{s}:{n}/", f"{s}://{n}", f"{s}://{n}/",
+            f"{s}:caf\u00e9", f"{s}:cafe\u0301", f"{s.upper()}:{n}", f"{s.capitalize()}:{n}", f"{s}:{n}#f", f"{s}:{n}?q"]
+
+
 def gen_uri(rng, schemes):
-    kind = rng.weighted([("known", 10), ("unknown", 2), ("upper", 0.7), ("invalid", 0.5), ("odd", 0.3)])
+    kind = rng.weighted([("known", 10), ("spelling", 2.5), ("unknown", 2), ("upper", 0.7), ("invalid", 0.5), ("odd", 0.3)])
     n = rng.randint(1, 4)
     if kind == "known" and schemes:
         return f"{rng.choice(schemes)}:{n}"
+    if kind == "spelling" and schemes:
+        return rng.choice(spellings(rng.choice(schemes), n))
     if kind == "upper" and schemes:
         return f"{rng.choice(schemes).upper()}:{n}"
     if kind == "invalid":
@@ -39,6 +49,10 @@ def gen_uri(rng, schemes):
 def gen_uris(rng, schemes):
     k = rng.weighted([(0, 1), (1, 3), (2, 4), (3, 4), (4, 3), (6, 2), (9, 0.5)])
     out = [gen_uri(rng, schemes) for _ in range(k)]
+    if out and schemes and rng.random() < 0.15:  # a URI next to another spelling of itself
+        s, n = rng.choice(schemes), rng.randint(1, 4)
+        out.insert(rng.randrange(len(out) + 1), f"{s}:{n}")
+        out.insert(rng.randrange(len(out) + 1), rng.choice(spellings(s, n)))
     if out and rng.random() < 0.25:
         out.insert(rng.randrange(len(out) + 1), rng.choice(out))  # duplicate
     return out
@@ -110,6 +124,8 @@ def gen_resp(rng, method, bidx, own_uris, all_uris):
         if fault == "shape":
             return rng.choice([["list", gen_entries(rng, cls, base)], ["val", cls, base], ["bool", True],
                                ["int", 3], ["map", []]])
+        if fault == "good" and rng.random() < 0.4:  # a well-behaved backend answers what it is asked
+            return ["echo", cls, [base + i for i in range(rng.randint(0, 2))]]
         mode = "good" if fault == "good" else rng.choice(["foreign", "extra", "badval", "junk", "mixed"])
         return gen_map(rng, cls, base, own_uris, all_uris, mode)
     if method in ("browse", "as_list", "get_items", "get_distinct"):
@@ -410,6 +426,8 @@ def sweep_cases(pairs=False):
 def is_bad_answer(method, resp):
     """Coarse classification used only for the input-distribution report."""
     tag = resp[0]
+    if tag == "echo":
+        return None
     if tag in ("raise", "wrong"):
         return tag if tag == "wrong" else "raise-" + resp[1]
     if tag == "none":
